@@ -54,11 +54,20 @@ Fixpoint guardedl (X U : Z) (l : list rstmt) : bool :=
 
 (* the outermost block is executed once: after X, reaching the end of the program without a
    barrier is fine; only plain ops other than U may follow up to a barrier or the end *)
+Fixpoint mentions (U : Z) (s : rstmt) : bool :=
+  let fix ml (l : list rstmt) : bool := match l with [] => false | x :: r => mentions U x || ml r end in
+  match s with
+  | RLeaf id _ bar _ _ => negb bar && (id =? U)
+  | RFor _ b => ml b
+  | RIf _ t e => ml t || ml e
+  end.
+Definition mentionsl (U : Z) (l : list rstmt) : bool := existsb (mentions U) l.
+
 Fixpoint bar_follows_top (U : Z) (l : list rstmt) : bool :=
   match l with
   | [] => true
   | RLeaf id _ bar _ _ :: r => if bar then true else if id =? U then false else bar_follows_top U r
-  | _ => false
+  | s :: r => negb (mentions U s) && bar_follows_top U r      (* a construct in which U does not occur *)
   end.
 
 Fixpoint guardedl_top (X U : Z) (l : list rstmt) : bool :=
@@ -101,3 +110,20 @@ Definition core_of (y : opinfo) : Z :=
   match oi_kind y with BDM => 1 | BCompute => 0 | _ => -1 end.
 Definition leaf_of (y : opinfo) : rstmt :=
   RLeaf (oi_id y) (core_of y) (is_sync y) [] (oi_operands y).
+
+(* a function whose body is: straight-line ops, ONE scf.for with a straight-line body, straight-line
+   ops (the shape of a tiled kernel); the pre-order list and the program tree of the pass output
+   (the scf.yield is not an op of the tree) *)
+Record loopprog := mkLoop {
+  lp_pre : list opinfo; lp_for : opinfo; lp_body : list opinfo; lp_yield : opinfo; lp_post : list opinfo }.
+
+Definition lp_flat (q : loopprog) : list opinfo :=
+  lp_pre q ++ lp_for q :: lp_body q ++ lp_yield q :: lp_post q.
+
+Definition maybe_sync (bars : list Z) (y : opinfo) : list opinfo :=
+  if memb (oi_id y) bars then [sync_before y] else [].
+
+Definition lp_tree (bars : list Z) (q : loopprog) : list rstmt :=
+  map leaf_of (insert_syncs bars (lp_pre q) ++ maybe_sync bars (lp_for q)) ++
+  RFor (oi_id (lp_for q)) (map leaf_of (insert_syncs bars (lp_body q) ++ maybe_sync bars (lp_yield q))) ::
+  map leaf_of (insert_syncs bars (lp_post q)).
